@@ -1,5 +1,5 @@
 import SJ.Proofs.Machine
-import SJ.Proofs.NumLinkParser
+import SJ.Proofs.NumFuel
 import SJ.Proofs.Sound.Num
 /-!
 # C14 — hostile input cannot crash, overflow the stack or corrupt memory (the logical part)
@@ -179,7 +179,7 @@ theorem c14_limit_hit (env : Env) (henv : env.tgt = .value) (hl : env.cfg.limitO
 /-! ## The number conversion never runs out of fuel
 
 `f64_from_parts` loops (`f /= 1e308; exponent += 308`); the model transcribes the loop with explicit
-fuel `|exponent| / 308 + 3` and an `outOfFuel` result that `numValue` would report as
+fuel `|exponent| / 308 + 3` (`308` = `Gen.fromPartsStep`, re-extracted) and an `outOfFuel` result that `numValue` would report as
 `NumberOutOfRange`. It is unreachable. -/
 
 /-- **C14 (fuel).** For all parts the machine's scanner can produce (`PartsWF`: ASCII digits, integer
